@@ -8,6 +8,6 @@ require (
 	pgregory.net/rapid v1.3.0
 )
 
-require golang.org/x/exp v0.0.0-20250620022241-b7579e27df2b // indirect
+require golang.org/x/exp v0.0.0-20250620022241-b7579e27df2b
 
 replace github.com/xinchentechnote/fin-proto-go => /repo
